@@ -1,10 +1,12 @@
 (* Props/C03_tcpascii.v — C03 (framing builds the spec ADU and round-trips), half for the
    socket (TCP/MBAP), ASCII and TLS framers and the LRC.  ONLY statements; proofs are in
    proofs/FrA_*_proofs.v.  [lrc], [tcp], [ascii], [tls], [base] are the records regenerated from
-   pymodbus/utilities.py and pymodbus/framer/*.py on every run (Generated/GenFramerA.v). *)
+   pymodbus/utilities.py and pymodbus/framer/*.py on every run (Generated/GenFramerA.v);
+   [spec_adu_*], [spec_delivery], [valid_frame] are the specification side (theories/FrSpecA.v).
+   The PDU decoder [dec] is universally quantified. *)
 From PM.theories Require Import Base Expr Struct FrBaseA Lrc FrTcp FrAscii FrTls FrSpecA.
 From PM.Generated Require Import GenFramerA.
-From PM.proofs Require Import FrA_lrc_proofs.
+From PM.proofs Require Import FrA_lrc_proofs FrA_tcp_proofs FrA_ascii_proofs FrA_tls_proofs.
 Open Scope list_scope.
 Open Scope Z_scope.
 
@@ -19,5 +21,66 @@ Theorem C03_check_lrc : forall (data : bytes) (check : Z),
 Proof. exact py_check_lrc_spec. Qed.
 Print Assumptions C03_check_lrc.
 
-Example C03_nonvacuous : py_lrc lrc [1%N; 3%N; 0%N; 0%N; 0%N; 2%N] = 250.
-Proof. reflexivity. Qed.
+(* buildPacket = the specified ADU, for every transaction id, protocol id, unit id, function
+   code and payload (message.encode() = data, PDU = fc :: data) *)
+Theorem C03_build_tcp : forall tid pid uid fc (data : bytes),
+  0 <= tid < 65536 -> 0 <= pid < 65536 -> 0 <= uid < 256 -> 0 <= fc < 256 ->
+  Z.of_nat (length data) + 2 < 65536 ->
+  t_build tcp tid pid uid fc data = Ok (spec_adu_tcp tid pid uid (Z.to_N fc :: data)).
+Proof. exact tcp_build_spec. Qed.
+Print Assumptions C03_build_tcp.
+
+Theorem C03_build_tcp_range : forall tid pid uid fc (data : bytes),
+  ~ (0 <= tid < 65536) -> t_build tcp tid pid uid fc data = Raise StructError.
+Proof. exact tcp_build_range. Qed.
+Print Assumptions C03_build_tcp_range.
+
+Theorem C03_build_ascii : forall uid fc (data : bytes),
+  0 <= uid < 256 -> 0 <= fc < 256 -> wfb data = true ->
+  a_build lrc ascii uid fc data = Ok (spec_adu_ascii uid (Z.to_N fc :: data)).
+Proof. exact ascii_build_spec. Qed.
+Print Assumptions C03_build_ascii.
+
+Theorem C03_build_tls : forall fc (data : bytes),
+  0 <= fc < 256 -> s_build tls fc data = Ok (spec_adu_tls (Z.to_N fc :: data)).
+Proof. exact tls_build_spec. Qed.
+Print Assumptions C03_build_tls.
+
+(* the packet, whole, to a fresh receiver: exactly one delivery, header fields preserved,
+   receiver back in its initial state, nothing raised *)
+Theorem C03_whole_frame_tcp : forall (dec : bytes -> dres) (c : cfg) (f : frame),
+  valid_frame KTcp dec c f ->
+  t_recv base tcp dec c (t_init tcp) (spec_adu KTcp f) = (t_init tcp, [spec_delivery KTcp f], Done).
+Proof. exact tcp_whole_frame. Qed.
+Print Assumptions C03_whole_frame_tcp.
+
+Theorem C03_whole_frame_ascii : forall (dec : bytes -> dres) (c : cfg) (f : frame),
+  valid_frame KAscii dec c f ->
+  a_recv base lrc ascii dec c (a_init ascii) (spec_adu KAscii f) = (a_init ascii, [spec_delivery KAscii f], Done).
+Proof. exact ascii_whole_frame. Qed.
+Print Assumptions C03_whole_frame_ascii.
+
+Theorem C03_whole_frame_tls : forall (dec : bytes -> dres) (c : cfg) (pdu : bytes) fc,
+  (1 <= length pdu)%nat -> dec pdu = DMsg fc ->
+  single_of (s_single_default tls) c || zmem 0 (c_units c) || zmem 255 (c_units c) = true ->
+  s_recv base tls dec c [] pdu = ([], [{| d_pdu := pdu; d_tid := 0; d_pid := 0; d_uid := 0 |}], Done).
+Proof. exact tls_whole_frame. Qed.
+Print Assumptions C03_whole_frame_tls.
+
+(* REFUTED part (known finding #22): TLS framer with single=False and no 0/0xFF unit *)
+Definition C03_whole_frame_tls_full_statement : Prop :=
+  forall (dec : bytes -> dres) (c : cfg) (pdu : bytes) fc, (1 <= length pdu)%nat -> dec pdu = DMsg fc ->
+  s_recv base tls dec c [] pdu = ([], [{| d_pdu := pdu; d_tid := 0; d_pid := 0; d_uid := 0 |}], Done).
+Theorem C03_tls_keyerror : forall (dec : bytes -> dres) (c : cfg) (pdu : bytes),
+  (1 <= length pdu)%nat -> c_single c = Some false -> zmem 0 (c_units c) = false -> zmem 255 (c_units c) = false ->
+  s_recv base tls dec c [] pdu = (pdu, [], Exc KeyError).
+Proof. exact tls_keyerror. Qed.
+Print Assumptions C03_tls_keyerror.
+
+Example C03_nonvacuous :
+  py_lrc lrc [1%N; 3%N; 0%N; 0%N; 0%N; 2%N] = 250 /\
+  valid_frame KAscii (fun _ => DMsg 3) {| c_units := [17]; c_single := None |}
+              {| f_tid := 0; f_pid := 0; f_uid := 17; f_pdu := [3%N; 0%N; 107%N; 0%N; 3%N] |} /\
+  spec_adu_ascii 17 [3%N; 0%N; 107%N; 0%N; 3%N] =
+    [58; 49; 49; 48; 51; 48; 48; 54; 66; 48; 48; 48; 51; 55; 69; 13; 10]%N.
+Proof. split; [reflexivity|]. split; [|reflexivity]. repeat split; cbn; lia. Qed.
